@@ -1280,7 +1280,7 @@ func main() {
 			if th {
 				return 25 * time.Minute
 			}
-			return 90 * time.Second
+			return 86 * time.Second
 		},
 		Extra: func(rep *report.Reporter, cov report.Coverage) {
 			if os.Getenv("VERIF_ONLY") != "" {
